@@ -175,6 +175,51 @@ theorem run_full (D : Decoder σ ℝ) (fuel : Nat) (s : Sys σ ℝ) (h0 : s.core
     (h : s.ring.isFull = true) : Sys.run D fuel s = (.ok .wait, s) := by
   unfold Sys.run; simp [h0, h]
 
+/-! ### what the interpolator sees, at any pace -/
+
+/-- entry `i` of the walk's sequence if the decoder has produced it (`i < m`), silence otherwise -/
+noncomputable def World.entryOrSilence (W : World) (m i : Nat) : Frame ℝ :=
+  if i < m then (W.ringSeq i).frame else Frame.zero
+
+theorem nextFrame_window {W : World} {pos : σ → Nat} {good : σ → Prop} {s : Sys σ ℝ} {a m : Nat}
+    (R : RingInv W pos good s a m) (i : Nat) : s.nextFrame i = W.entryOrSilence m (a + i) := by
+  unfold Sys.nextFrame World.entryOrSilence
+  rw [R.tAt.ring, W.ringSlice_getElem?]
+  by_cases h : a + i < m <;> simp [h]
+
+/-- the interpolated frame: Hermite interpolation of four *consecutive* entries of the decoded sequence (silence
+    where the decoder has not got yet), at the current fraction -/
+theorem rawFrame_window {W : World} {pos : σ → Nat} {good : σ → Prop} {s : Sys σ ℝ} {a m : Nat}
+    (R : RingInv W pos good s a m) :
+    s.rawFrame = interpolateFrame (W.entryOrSilence m a) (W.entryOrSilence m (a + 1)) (W.entryOrSilence m (a + 2))
+      (W.entryOrSilence m (a + 3)) s.frac := by
+  unfold Sys.rawFrame
+  rw [nextFrame_window R 0, nextFrame_window R 1, nextFrame_window R 2, nextFrame_window R 3]
+  simp
+
+/-- at an integer position the frame heard is entry `a + 1` itself (or silence) -/
+theorem rawFrame_integer {W : World} {pos : σ → Nat} {good : σ → Prop} {s : Sys σ ℝ} {a m : Nat}
+    (R : RingInv W pos good s a m) (h0 : s.frac = 0) : s.rawFrame = W.entryOrSilence m (a + 1) := by
+  rw [rawFrame_window R, h0]
+  exact interpolateFrame_zero _ _ _ _
+
+/-- one rendered frame at any pace: the output is the shaded interpolated frame, and the ring invariant holds again
+    with the consumer no further back and never past the producer -/
+theorem renderFrame_window {W : World} {pos : σ → Nat} {good : σ → Prop} {s s' : Sys σ ℝ} {a m : Nat}
+    (R : RingInv W pos good s a m) (fuel : Nat) (t dt : ℝ) (out : Frame ℝ)
+    (h : s.renderFrame fuel t dt = .ok (s', out)) :
+    out = s.shade t s.rawFrame ∧ ∃ a', a ≤ a' ∧ a' ≤ m ∧ RingInv W pos good s' a' m := by
+  have hA := renderFrame_audioOnly fuel s s' t dt out h
+  obtain ⟨a', hle, R'⟩ := audioOnly_ringInv R hA
+  refine ⟨?_, a', hle, R'.a_le, R'⟩
+  unfold Sys.renderFrame at h
+  cases hs : Sys.stepPos fuel { s with frac := s.frac + s.fracStep t dt } with
+  | error e => rw [hs] at h; exact absurd h (by simp)
+  | ok s1 =>
+    simp only [hs] at h
+    injection h with h; injection h with _ h2
+    exact h2.symm
+
 end Streaming
 
 namespace DT
@@ -638,6 +683,119 @@ theorem inv_reachable (D : Dec.Decoder σ ℝ) (fuel : Nat) (sys0 : Sys σ ℝ) 
   induction hr with
   | init => exact inv_init sys0 h0
   | step x _ hs ih => exact inv_step D fuel _ _ x ih hs
+
+
+/-! ### the two witnesses -/
+
+/-- a decoder of one silent frame (one packet; every seek lands on frame 0) -/
+def oneDecoder : Dec.Decoder Unit ℝ where
+  decode _ := .ok ([Frame.zero], ())
+  seek _ _ := .ok (0, ())
+
+/-- a one-frame sound that loops for ever: `StreamingSoundData::from_decoder(..).loop_region(0..)` -/
+noncomputable def loopData : StreamingSoundData Unit ℝ :=
+  { dec := (), sampleRate := 1, decFrames := 1, slice := none
+    settings := { startTime := .immediate, startPosition := .samples 0
+                  loopRegion := some ⟨.samples 0, .endOfAudio⟩
+                  volume := .fixed 0, playbackRate := .fixed 1, panning := .fixed 0, fadeInTween := none } }
+
+/-- the looping sound with `items` in its ring and decoder-facing state `ds` -/
+noncomputable def loopSys (items : List (TimestampedFrame ℝ)) (ds : Dec.Sched Unit ℝ) : Sys Unit ℝ :=
+  { cfg := ⟨none, 1⟩, sampleRate := 1, cmds := {}, ring := { cap := bufferSize, items := items }
+    errRing := Ring.new errorBufferCapacity, reachedEnd := false, encounteredError := false
+    sharedPosition := (KOps.ofNat 0 : ℝ) / (KOps.ofNat 1 : ℝ), ds := ds
+    transport := { position := 0, loopRegion := some (0, 1), playing := true }
+    core := SoundCore.new .immediate none, currentFrame := 0, frac := (0.0 : ℝ)
+    volume := Parameter.new (.fixed 0) Psm.identityDb, playbackRate := Parameter.new (.fixed 1) (1.0 : ℝ)
+    panning := Parameter.new (.fixed 0) (0.0 : ℝ) }
+
+/-- decoder-facing state right after `split` / once the single packet is cached -/
+def ds0 : Dec.Sched Unit ℝ := ⟨(), 0, none, 0, true⟩
+def ds1 : Dec.Sched Unit ℝ := ⟨(), 1, some ⟨0, [Frame.zero]⟩, 0, true⟩
+
+theorem loop_new : Sys.new oneDecoder loopData = .ok (loopSys [⟨Frame.zero, 0⟩] ds0) := by
+  simp [Sys.new, Dec.Sched.new, oneDecoder, loopData, PlaybackPosition.intoSamples, Transport.new, loopSys, ds0,
+    Region.toSamples]
+
+theorem loop_run (fuel : Nat) (items : List (TimestampedFrame ℝ)) (ds : Dec.Sched Unit ℝ) (hds : ds = ds0 ∨ ds = ds1) :
+    Sys.run oneDecoder (fuel + 1) (loopSys items ds) =
+      if bufferSize ≤ items.length then (.ok .wait, loopSys items ds)
+      else (.ok .continue, loopSys (items ++ [⟨Frame.zero, 0⟩]) ds1) := by
+  have hshared : (loopSys items ds).core.shared ≠ .stopped := by simp [loopSys, SoundCore.new]
+  by_cases hfull : bufferSize ≤ items.length
+  · simp only [hfull, if_true]
+    exact run_full oneDecoder (fuel + 1) _ hshared (by simp [loopSys, Ring.isFull, hfull])
+  · simp only [hfull, if_false]
+    rw [run_eq_produce oneDecoder (fuel + 1) _ hshared (by simp [loopSys, Ring.isFull, hfull]) rfl rfl rfl]
+    have hlt : items.length < bufferSize := by omega
+    rcases hds with rfl | rfl
+    · simp [Sys.produce, loopSys, ds0, ds1, Dec.frameAtIndex, Dec.decodeUntil, oneDecoder, Dec.Chunk.frameAt, Ring.push,
+        hlt, Transport.increment, Transport.incWrap, wrapDown, Frame.zero]
+    · simp [Sys.produce, loopSys, ds1, Dec.frameAtIndex, Dec.Chunk.frameAt, Ring.push,
+        hlt, Transport.increment, Transport.incWrap, wrapDown, Frame.zero]
+
+/-- the abandoned sound: nobody owns the `Box<dyn Sound>`, nobody holds the handle, the thread is at its loop top -/
+def Abandoned (l : St Unit ℝ) : Prop :=
+  l.pc = .top ∧ l.place = .abandoned ∧ l.handle = false ∧
+  ∃ items ds, (ds = ds0 ∨ ds = ds1) ∧ l.sys = loopSys items ds
+
+theorem abandoned_step (fuel : Nat) (l l' : St Unit ℝ) (x : Label ℝ) (h : Abandoned l)
+    (hs : step oneDecoder (fuel + 1) l x = some l') : Abandoned l' := by
+  obtain ⟨hpc, hpl, hh, items, ds, hds, hsys⟩ := h
+  cases x with
+  | dStep =>
+    simp only [step, dStep, hpc, hsys, loop_run fuel items ds hds] at hs
+    by_cases hfull : bufferSize ≤ items.length
+    · simp only [hfull, if_true] at hs
+      injection hs with hs; subst hs
+      exact ⟨rfl, hpl, hh, items, ds, hds, rfl⟩
+    · simp only [hfull, if_false] at hs
+      injection hs with hs; subst hs
+      exact ⟨rfl, hpl, hh, _, ds1, Or.inr rfl, rfl⟩
+  | aStart => simp [step, hpl] at hs
+  | aProcess len dt info => simp [step, hpl] at hs
+  | hCmd c => simp [step, hh] at hs
+  | hPopError => simp [step, hh] at hs
+  | hDrop => simp [step, hh] at hs
+  | abandon => simp [step, hpl] at hs
+
+theorem abandoned_run (fuel : Nat) : ∀ (xs : List (Label ℝ)) (l : St Unit ℝ), Abandoned l →
+    Abandoned (runSched oneDecoder (fuel + 1) l xs) := by
+  intro xs
+  induction xs with
+  | nil => intro l h; exact h
+  | cons x xs ih =>
+    intro l h
+    simp only [runSched]
+    cases hs : step oneDecoder (fuel + 1) l x with
+    | none => exact ih l h
+    | some l' => exact ih l' (abandoned_step fuel l l' x h hs)
+
+/-- a decoder whose every call fails (a broken stream) -/
+def failDecoder : Dec.Decoder Unit ℝ where
+  decode _ := .error .sym
+  seek _ _ := .error .sym
+
+/-- a playing one-frame sound whose decoder fails, with error ring `er` and error flag `flag` -/
+noncomputable def spinSys (er : Ring Wav.Err) (flag : Bool) : Sys Unit ℝ :=
+  { loopSys [⟨Frame.zero, 0⟩] ds0 with errRing := er, encounteredError := flag }
+
+theorem spin_run (fuel : Nat) (er : Ring Wav.Err) (flag : Bool) :
+    Sys.run failDecoder (fuel + 1) (spinSys er flag) = (.err .sym, spinSys er flag) := by
+  have hshared : (spinSys er flag).core.shared ≠ .stopped := by simp [spinSys, loopSys, SoundCore.new]
+  rw [run_eq_produce failDecoder (fuel + 1) _ hshared (by simp [spinSys, loopSys, Ring.isFull, bufferSize]) rfl rfl rfl]
+  simp [Sys.produce, spinSys, loopSys, ds0, Dec.frameAtIndex, Dec.decodeUntil, failDecoder, abortOfErr, Abort.outcome]
+
+/-- one loop iteration of the failing sound: an error, no frame pushed, no sleep, no end — and the same again -/
+theorem spin_iter (fuel : Nat) (er : Ring Wav.Err) (flag : Bool) :
+    ∃ er', Sys.threadIter failDecoder (fuel + 1) (spinSys er flag) = (.erred, spinSys er' true) := by
+  unfold Sys.threadIter
+  rw [spin_run]
+  simp only []
+  unfold Sys.pushError
+  cases hp : (spinSys er flag).errRing.push .sym with
+  | none => exact ⟨er, by rfl⟩
+  | some r => exact ⟨r, by rfl⟩
 
 end DT
 end K
